@@ -121,9 +121,11 @@ Fixpoint send_acks (e : Z) (rs : list (option csess)) (ch : list (list Z)) : lis
   | None :: rs' => send_acks e rs' ch
   end.
 
-(* handleHotRestartAck on server session i with epoch e *)
+(* handleHotRestartAck on server session i with epoch e: an ack counts only while the listener is in
+   hotRestartState, for the epoch in progress, on a session that is itself still waiting *)
 Definition lis_on_ack (l : listener) (i : nat) (e : Z) : listener :=
-  if e =? l_epoch l then
+  if (l_state l =? st_hr) && (e =? l_epoch l) &&
+     match nth_error (l_sess l) i with Some x => ls_state x =? st_hr | None => false end then
     {| l_state := l_state l; l_epoch := l_epoch l; l_ack := l_ack l - 1; l_chk := l_chk l;
        l_sess := match nth_error (l_sess l) i with
                  | Some x => upd (l_sess l) i (ls_set_state x st_done)
@@ -156,7 +158,12 @@ Definition enabled (s : state) (ev : event) : bool :=
   | SendRestart i _ => (i <? length (to_client s))%nat
   | DropRestart i => nonempty (nth_error (to_client s) i)
   | ManagerTick | ManagerTimeout => m_chk (mgr s)
-  | DeliverAck i => nonempty (nth_error (to_server s) i)
+  | DeliverAck i =>
+      (* the handler runs on the session's event connection: only while the session is alive, i.e.
+         still in the table (Session.Close removes it from the table and closes the connection; the
+         short window between the two is not modelled) *)
+      nonempty (nth_error (to_server s) i) &&
+      match nth_error (l_sess (lis s)) i with Some x => ls_present x | None => false end
   | SendAck i _ => (i <? length (to_server s))%nat
   | DropAck i => nonempty (nth_error (to_server s) i)
   | ListenerTick | ListenerTimeout => l_chk (lis s)
